@@ -21,11 +21,48 @@ Record world := {
   w_rsilent : N         (* how many of those the stored object contains *)
 }.
 
+(* One attempt of Provider.Provide's retry loop = one Store.Backup call.  In the non-vacuum
+   path Backup first runs a snapshot (which checkpoints the WAL into the SQLite file) and then
+   copies that file:
+     AOk     the pre-backup snapshot succeeded (or there was no WAL, or the vacuum path is used)
+     ABenign it was refused with "nothing new to snapshot" / "wait until the configuration
+             entry ..." - raft reports these AFTER the FSM snapshot (the checkpoint) has run
+     AGate   it was refused because the snapshot gate (snapshotCAS) is held by someone else
+             (a user backup still streaming, the clean-snapshot check, Close): NO checkpoint
+             has happened, the newest changes are only in the WAL
+     AFail   the attempt failed for another reason (destination write error, ...) *)
+Inductive attempt := AOk | ABenign | AGate | AFail.
+
+(* what one attempt copies: the file holds every committed change exactly when the
+   checkpoint has run; otherwise Backup must fail (and Provide retries) *)
+Definition backup_copy (db : list N) (a : attempt) : option content :=
+  match a with
+  | AOk | ABenign => Some db
+  | AGate | AFail => None
+  end.
+
+(* Provide: for { err := Backup(); if err == nil break; sleep; nRetries++; if nRetries > 10 return err }
+   fuel = 11 attempts; attempts beyond the scripted list are AOk.  Returns the data and the
+   number of attempts made. *)
+Fixpoint provide (fuel : nat) (db : list N) (atts : list attempt) (n : N) : option content * N :=
+  match fuel with
+  | O => (None, n)
+  | S f =>
+      match atts with
+      | [] => (backup_copy db AOk, n + 1)
+      | a :: r => match backup_copy db a with
+                  | Some d => (Some d, n + 1)
+                  | None => provide f db r (n + 1)
+                  end
+      end
+  end.
+
 (* what can happen around one round *)
 Record env := {
   e_li_err   : bool;     (* DataProvider.LastIndex fails *)
   e_mid      : list N;   (* changes committed after LastIndex returned and before Provide copies the database *)
-  e_prov_err : bool;     (* DataProvider.Provide fails *)
+  e_prov_err : bool;     (* DataProvider.Provide fails outright (no attempt is made) *)
+  e_attempts : list attempt;  (* what the successive Backup attempts inside Provide run into *)
   e_id_err   : bool;     (* StorageClient.CurrentID fails *)
   e_up_fail  : bool      (* StorageClient.Upload fails (the stored object is left as it was) *)
 }.
@@ -44,6 +81,10 @@ Definition set_db (w : world) (db : list N) : world :=
   {| w_last := w_last w; w_db := db; w_rid := w_rid w; w_rdata := w_rdata w;
      w_silent := w_silent w; w_rsilent := w_rsilent w |}.
 
+(* DataProvider.Provide as the uploader sees it *)
+Definition provided (db : list N) (e : env) : option content :=
+  if e_prov_err e then None else fst (provide 11 db (e_attempts e) 0).
+
 Definition opt_N_eqb (a : option N) (b : N) : bool :=
   match a with Some x => x =? b | None => false end.
 
@@ -61,9 +102,9 @@ Definition round (w : world) (e : env) : world * outcome * list call :=
     if li <=? w_last w then (w, OSkipped, [CLast])
     else
       let w1 := set_db w (w_db w ++ e_mid e) in
-      if e_prov_err e then (w1, OErrProvide, [CLast; CProvide])
-      else
-        let data := w_db w1 in
+      match provided (w_db w1) e with
+      | None => (w1, OErrProvide, [CLast; CProvide])
+      | Some data =>
         let first := w_last w =? 0 in
         if first && negb (e_id_err e) && opt_N_eqb (w_rid w) li
         then (w1, OSkippedID, [CLast; CProvide; CCurID])
@@ -71,7 +112,15 @@ Definition round (w : world) (e : env) : world * outcome * list call :=
           let calls := [CLast; CProvide] ++ (if first then [CCurID] else []) ++ [CUpload li data] in
           if e_up_fail e then (w1, OUploadFailed li data, calls)
           else ({| w_last := li; w_db := w_db w1; w_rid := Some li; w_rdata := data;
-                   w_silent := w_silent w; w_rsilent := w_silent w |}, OUploaded li data, calls).
+                   w_silent := w_silent w; w_rsilent := w_silent w |}, OUploaded li data, calls)
+      end.
+
+(* number of Backup attempts Provide makes in this round (0 = Provide not reached / failed outright) *)
+Definition attempts_made (w : world) (e : env) : N :=
+  if e_li_err e then 0
+  else if last_index (w_db w) <=? w_last w then 0
+  else if e_prov_err e then 0
+  else snd (provide 11 (w_db w ++ e_mid e) (e_attempts e) 0).
 
 (* EvSilent: the database content changes but fsmApply does not count the log entry as a
    mutation (command_processor.go: an EXECUTE_QUERY entry whose responses are all query
@@ -98,7 +147,8 @@ Definition is_error (o : outcome) : bool :=
 (* what the driver saw in one round: the calls the Uploader made on its provider and storage
    (with the label and the content of an Upload), whether upload returned an error, the
    Uploader's lastIndex field afterwards and the object in storage afterwards *)
-Record robs := { r_calls : list call; r_err : bool; r_last : N; r_rid : option N; r_rdata : content }.
+Record robs := { r_calls : list call; r_err : bool; r_last : N; r_rid : option N; r_rdata : content;
+                 r_attempts : N  (* times Provider.Provide started over on its destination *) }.
 
 Fixpoint list_N_eqb (a b : list N) : bool :=
   match a, b with
@@ -124,8 +174,8 @@ Fixpoint calls_eqb (a b : list call) : bool :=
 Definition opt_eqb (a b : option N) : bool :=
   match a, b with Some x, Some y => x =? y | None, None => true | _, _ => false end.
 
-Definition robs_agrees (w' : world) (o : outcome) (cs : list call) (r : robs) : bool :=
-  calls_eqb cs (r_calls r) && Bool.eqb (is_error o) (r_err r) && (w_last w' =? r_last r)
+Definition robs_agrees (w' : world) (o : outcome) (cs : list call) (n : N) (r : robs) : bool :=
+  (n =? r_attempts r) && calls_eqb cs (r_calls r) && Bool.eqb (is_error o) (r_err r) && (w_last w' =? r_last r)
   && opt_eqb (w_rid w') (r_rid r) && list_N_eqb (w_rdata w') (r_rdata r).
 
 (* walk the history; every round consumes one observation *)
@@ -139,7 +189,7 @@ Fixpoint agree (w : world) (evs : list event) (obs : list robs) : bool :=
       | [] => false
       | o :: obs' =>
           let '(w', out, cs) := round w e in
-          robs_agrees w' out cs o && agree w' r obs'
+          robs_agrees w' out cs (attempts_made w e) o && agree w' r obs'
       end
   end.
 
